@@ -70,6 +70,7 @@ pub struct World {
     pub accs: Vec<(u64, U256, u64, u64)>,
     pub sto: Vec<(u64, u64, U256)>,
     pub pre: Vec<u64>,
+    pub init: Vec<(u64, Vec<u64>)>,
     pub spec: SpecId,
 }
 
@@ -111,7 +112,10 @@ pub fn gen_world(rng: &mut Rng) -> World {
     let mut pre = vec![];
     for a in 1..=NADDR { if rng.chance(1, 5) { pre.push(a); } }
     let spec = *rng.pick(&[SpecId::HOMESTEAD, SpecId::LONDON, SpecId::LONDON, SpecId::CANCUN, SpecId::CANCUN]);
-    World { db, accs, sto, pre, spec }
+    // access list (initial_account_load): addresses with some storage keys, possibly repeated
+    let mut init = vec![];
+    for _ in 0..rng.below(4) { let a = 1 + rng.below(NADDR); let ks: Vec<u64> = (0..NKEY).filter(|_| rng.chance(1, 3)).collect(); init.push((a, ks)); }
+    World { db, accs, sto, pre, init, spec }
 }
 
 pub fn new_js(w: &World) -> JournaledState {
@@ -247,18 +251,22 @@ pub fn world_coq(w: &World) -> String {
     let ks = zlist((0..NKEY).map(|k| format!("{}", k)));
     let spur = w.spec.is_enabled_in(SpecId::SPURIOUS_DRAGON);
     let canc = w.spec.is_enabled_in(SpecId::CANCUN);
-    format!("{} {} {} {} {} {} {} {}", zb(spur), zb(canc), zlist(w.pre.iter().map(|a| format!("{}", a))), accs, sto, del, us, ks)
+    let init = zlist(w.init.iter().map(|(a, ks)| format!("({},{})", a, zlist(ks.iter().map(|k| format!("{}", k))))));
+    format!("{} {} {} {} {} {} {} {} {}", zb(spur), zb(canc), zlist(w.pre.iter().map(|a| format!("{}", a))), accs, sto, del, us, ks, init)
 }
 
-pub fn run(o: &Opts) {
-    let mut rng = Rng::new(o.seed ^ 0xC06);
-    let mut w = CaseWriter::new(o, "C06", 250);
+pub fn run(o: &Opts) { run_mod(o, "C06", 0xC06) }
+
+pub fn run_mod(o: &Opts, module: &str, salt: u64) {
+    let mut rng = Rng::new(o.seed ^ salt);
+    let mut w = CaseWriter::new(o, module, 250);
     let ids = code_ids();
     let n = if o.thorough() { 30_000 } else { 3_000 };
     for _ in 0..n {
         let mut world = gen_world(&mut rng);
         let mut js = new_js(&world);
         let mut db = world.db.clone();
+        for (a, ks) in &world.init { js.initial_account_load(addr(*a), ks.iter().map(|k| U256::from(*k)), &mut db).unwrap(); }
         let mut obs: Vec<String> = vec![];
         let mut tags: Vec<&'static str> = vec![];
         let mut completed = true;
@@ -303,7 +311,7 @@ pub fn run(o: &Opts) {
         tags.push(match world.spec { SpecId::HOMESTEAD => "spec:pre-spurious", SpecId::LONDON => "spec:london", _ => "spec:cancun" });
         let case = format!("(mkCase {} {} {} {} {} {} {} {} {})", world_coq(&world), zlist(setup.iter().map(|x| x.coq())),
             zlist(body.iter().map(|x| x.coq())), zb(balanced), zlist(obs.clone()), zb(completed), d0, d1, d2);
-        let human = format!("spec={:?} pre={:?} accs={:?} sto={:?} setup={:?} body={:?}", world.spec, world.pre, world.accs, world.sto, setup, body);
+        let human = format!("spec={:?} pre={:?} access_list={:?} accs={:?} sto={:?} setup={:?} body={:?}", world.spec, world.pre, world.init, world.accs, world.sto, setup, body);
         tags.sort(); tags.dedup();
         w.push(case, human, body.len() >= 3, &tags);
         world.db = db;
